@@ -580,7 +580,12 @@ def check_enq(ctx):
     parents = enclosing_chain(func.node)
     assign = lexically_inside(parents, call,
                               lambda n: isinstance(n, ast.Assign))
-    if assign is None or not isinstance(assign.targets[0], ast.Name):
+    outer = lexically_inside(parents, call, lambda n: isinstance(
+        n, ast.Call) and call_name(n) == 'atomically')
+    if assign is None or not isinstance(assign.targets[0], ast.Name) or \
+            assign.value not in (call, outer):
+        # (the decision handed to something else, a table look-up for
+        # instance, is not a dispatch this rule can read)
         ctx.undecided('ENQ', func, 'decision value not bound to a name',
                       at=func.where(call))
         return
@@ -595,7 +600,8 @@ def check_enq(ctx):
             if mem and isinstance(test.ops[0], (ast.Eq, ast.Is)):
                 return mem
             if isinstance(test.comparators[0], ast.Constant) and \
-                    test.comparators[0].value is None:
+                    test.comparators[0].value is None and isinstance(
+                        test.ops[0], (ast.Eq, ast.Is)):
                 return 'None'
         return None
 
